@@ -514,6 +514,12 @@ func (nfs *Nfs) NFSPROC3_SYMLINK(args nfstypes.SYMLINK3args) nfstypes.SYMLINK3re
 	util.DPrintf(1, "NFS SymLink %v\n", args)
 
 	data := []byte(args.Symlink.Symlink_data)
+	if uint64(len(data)) > maxWrite {
+		// The target is written by this one transaction, like the data of a
+		// WRITE; a longer one does not fit in the log.
+		reply.Status = nfstypes.NFS3ERR_NAMETOOLONG
+		return reply
+	}
 	op, err, fh3, fattr := nfs.doCreate(args.Where.Dir, args.Where.Name, nfstypes.NF3LNK, data)
 	if err != nfstypes.NFS3_OK {
 		errRet(op, &reply.Status, err)
